@@ -196,6 +196,19 @@ CLAIMED = {
              'pydantic lists exactly the declared fields with required = no default (oracle, checked on every case); parameters are unannotated.',
         technique='Coq proof (bind succeeds iff keys within documented names and covering the required ones, induction over signatures) + correspondence on generated documents',
         design='6 C17'),
+    'C18': dict(
+        text='Theorems about the model of the three request gates and replies: with an accepted media type the reply is exactly the dispatcher\'s '
+             'document, the JSON content type and the status chosen by the status-by-error function (200 and an empty body when the dispatcher '
+             'returns nothing); any other media type (or none) is answered 415 without invoking the dispatcher, whatever the body; every '
+             'documented request content type is accepted (against the regenerated constants), parameters after ";" and letter case do not '
+             'matter (proved for ALL header strings); 200 by default; the same request gets the same reply from every integration. '
+             'Correspondence: requests posted through the aiohttp / flask / werkzeug test clients, with the dispatcher verdict obtained '
+             'independently from a plain Dispatcher.',
+        note='PARTIAL: header parsing, body decoding and response construction are the frameworks\' (oracles whose contract is the media_type '
+             'specification; exercised on structured header values only). trusted: Coq kernel + vm_compute; hand-written model of the three _rpc_handle '
+             'functions validated on the generated requests only.',
+        technique='Coq proof (string lemmas for the media-type specification; relay/refuse/uniformity of the gate model) + correspondence through framework test clients',
+        design='6 C18'),
 }
 
 PENDING_REASON = 'not claimed yet: model, theorems and correspondence for this property are not all in place in this commit (see DESIGN.md section 10)'
